@@ -175,12 +175,66 @@ fn window(kind: &str, k: usize) {
     println!("OK window {kind}: real code agrees with the reference semantics on all enumerated configurations (K={k})");
 }
 
+/// `Null`, `Bool:true`, `Int:5`, `Float:<bits>`, `Str:s0`, `Timestamp:5`, `Duration:5`, `Array[a,b]`, `Map{k0=a,k1=b}`
+fn parse_value_desc(s: &str) -> Value {
+    fn split_top(s: &str) -> Vec<String> {
+        let (mut out, mut cur, mut depth) = (Vec::new(), String::new(), 0i32);
+        for c in s.chars() {
+            match c {
+                '[' | '{' => { depth += 1; cur.push(c) }
+                ']' | '}' => { depth -= 1; cur.push(c) }
+                ',' if depth == 0 => { out.push(std::mem::take(&mut cur)) }
+                _ => cur.push(c),
+            }
+        }
+        if !cur.is_empty() { out.push(cur) }
+        out
+    }
+    if s == "Null" { return Value::Null }
+    if let Some(r) = s.strip_prefix("Bool:") { return Value::Bool(r == "true") }
+    if let Some(r) = s.strip_prefix("Int:") { return Value::Int(r.parse().unwrap()) }
+    if let Some(r) = s.strip_prefix("Timestamp:") { return Value::Timestamp(r.parse().unwrap()) }
+    if let Some(r) = s.strip_prefix("Duration:") { return Value::Duration(r.parse().unwrap()) }
+    if let Some(r) = s.strip_prefix("Float:") { return Value::Float(f64::from_bits(r.parse().unwrap())) }
+    if let Some(r) = s.strip_prefix("Str:") { return Value::Str(r.into()) }
+    if let Some(r) = s.strip_prefix("Array[") { return Value::array(split_top(&r[..r.len() - 1]).iter().map(|x| parse_value_desc(x)).collect()) }
+    if let Some(r) = s.strip_prefix("Map{") {
+        let mut m: indexmap::IndexMap<std::sync::Arc<str>, Value, rustc_hash::FxBuildHasher> = indexmap::IndexMap::with_hasher(rustc_hash::FxBuildHasher);
+        for e in split_top(&r[..r.len() - 1]) { let (k, v) = e.split_once('=').unwrap(); m.insert(k.into(), parse_value_desc(v)); }
+        return Value::map(m);
+    }
+    panic!("bad value description {s}")
+}
+
 fn main() {
     let a: Vec<String> = std::env::args().collect();
     match a[1].as_str() {
         "window" => window(&a[2], a[3].parse().unwrap()),
         // filter <neg 0|1> <Op> <xclass> <x> <litclass> <lit>: does `.where(expr)` accept the event iff a one-step sequence with the same
         // filter (translated by the real expr_to_sase_predicate, matched by the real SaseEngine) matches it?
+        "ckpt" => {
+            // ckpt <Value description> <timestamp_ns>: Event -> SerializableEvent -> codec JSON bytes -> SerializableEvent -> Event
+            use varpulis_runtime::persistence::SerializableEvent;
+            use varpulis_runtime::codec::{serialize, deserialize, CheckpointFormat};
+            use chrono::{TimeZone, Utc};
+            let v = parse_value_desc(&a[2]);
+            let ts: i64 = a[3].parse().unwrap();
+            let mut ev = Event::new("T"); ev.timestamp = Utc.timestamp_nanos(ts);
+            ev.data.insert("x".into(), v.clone());
+            let se = SerializableEvent::from(&ev);
+            let direct: Event = se.clone().into();
+            let mut bad: Vec<String> = Vec::new();
+            if direct.data.get("x") != Some(&v) && !(matches!(v, Value::Float(f) if f.is_nan())) { bad.push(format!("value {v:?} restored as {:?} (conversion only)", direct.data.get("x"))) }
+            if direct.timestamp != ev.timestamp { bad.push(format!("timestamp {} restored as {} (conversion only)", ev.timestamp, direct.timestamp)) }
+            match serialize(&se, CheckpointFormat::Json) {
+                Err(e) => bad.push(format!("serialize failed: {e}")),
+                Ok(bytes) => match deserialize::<SerializableEvent>(&bytes) {
+                    Err(e) => bad.push(format!("deserialize of {} failed: {e}", String::from_utf8_lossy(&bytes))),
+                    Ok(back) => { let e2: Event = back.into(); if e2.data.get("x") != direct.data.get("x") { bad.push(format!("value {v:?} came back from JSON as {:?}", e2.data.get("x"))) } }
+                },
+            }
+            if bad.is_empty() { println!("OK ckpt {v:?} @ {ts}") } else { println!("REPRODUCED ckpt: {}", bad.join("; ")) }
+        }
         "watermark" => {
             // watermark <op> <name> <ts> <ooo_new> <n> {<key> <wm|-> <max|-> <ooo>}*   (times in ns)
             // Bounded differential probe of PerSourceWatermarkTracker against the reference semantics, observed through
